@@ -90,6 +90,7 @@ type Config struct {
 	TwoValidators    bool   `json:"two_validators,omitempty"`
 	Seed             []byte `json:"seed,omitempty"` // header AppHash = selection seed
 	BaselineZero     bool   `json:"baseline_zero,omitempty"` // Baseline = 0 (Baseline: 0 means "default 1")
+	GenesisReward    int64  `json:"genesis_total_reward,omitempty"` // Pool.TotalReward of the genesis (to start near a halving)
 	FastUnbond       bool   `json:"fast_unbond,omitempty"`   // staking unbonding time 10 s (two blocks)
 	MaxValidators    uint32 `json:"max_validators,omitempty"`
 }
@@ -229,6 +230,9 @@ func Genesis(enc cosmoscmd.EncodingConfig, actors []*Actor, cfg Config) (app.Gen
 	ng := nodetypes.DefaultGenesis()
 	ng.Pool.TotalPledged = sdk.NewInt64Coin(Denom, 0)
 	ng.Pool.AccPledgePerByte = sdk.NewInt64DecCoin(Denom, 0)
+	if cfg.GenesisReward != 0 {
+		ng.Pool.TotalReward = sdk.NewInt64Coin(Denom, cfg.GenesisReward)
+	}
 	ng.Params.BlockReward = sdk.NewInt64Coin(Denom, cfg.BlockReward)
 	ng.Params.Baseline = sdk.NewInt64Coin(Denom, cfg.Baseline)
 	if cfg.BaselineZero {
